@@ -53,7 +53,7 @@ PROPS = {
 
 PROPS.update({
     "C01": dict(
-        family="conv", theorems=[],
+        family="conv", theorems=T("C01", "convert_std", "chain_roundtrip", "latin1_roundtrip", "string_from_std", "string_to_std"),
         rule="every Unicode scalar (1,112,064) alone and (thorough) in 25 neighbour contexts through 21 routes x 3 modes as 8192-scalar blocks compared by digest; "
              "14 boundary scalars x 25 contexts, all 256 Latin-1 bytes x 3 positions and seeded random scalar sequences (length 0..40) through every public route "
              "(free functions ptr/buffer, ST::string constructors/set/operator=/from_*/literals/std::basic_string/string_view, to_* members/std strings). "
@@ -63,7 +63,13 @@ PROPS.update({
         assumptions=["wchar_t is 32-bit on this platform: every wchar_t route is the UTF-32 route; the 16-bit enable_if branches are not compiled"],
     ),
     "C02": dict(
-        family="conv", theorems=[], variants=DEFAULT_MODE_VARIANTS,
+        family="conv", variants=DEFAULT_MODE_VARIANTS,
+        theorems=T("C02", "convert_eq_reference", "string_eq_reference", "check_throws_iff", "check_throws_iff_malformed", "string_check",
+                   "subst_never_throws", "subst_output", "string_subst_revalidates", "string_wellformed_unchanged", "tolerated_same_decision",
+                   "isolation_utf8", "subst_output_valid_utf32_partial", "subst_output_invalid_utf16_witness", "subst_output_invalid_utf32_witness"),
+        partial="'substitute_invalid output always passes check_validity' is proved for ST::string/UTF-8 output unconditionally and for UTF-32 output under the "
+                "hypothesis that no segment decodes above 10FFFF; its negation is proved for UTF-16/UTF-32 targets by two witnesses (recorded findings). "
+                "'calls that omit the mode behave as ST_DEFAULT_VALIDATION' is a fact about overload plumbing: decided by the correspondence over three builds, not by a theorem.",
         rule="every string over a 14-symbol critical byte alphabet up to length 4 (quick) / 5 (thorough), over 8 UTF-16 and 9 UTF-32 critical units, "
              "a second byte alphabet with C0/C1/F5/FF up to length 3, valid text with a malformed unit spliced/substituted at every position, seeded random garbage; "
              "each through every route reading that encoding x {check, substitute, assume, default} x Latin-1 with/without substitution; harness rebuilt per "
@@ -71,7 +77,10 @@ PROPS.update({
         exhaustive={"quick": False, "thorough": False},
     ),
     "C03": dict(
-        family="conv", theorems=[],
+        family="conv", theorems=T("C03", "convert_total", "convert_null", "measure_eq_fill", "fill_le_measure", "size_is_reference", "flags_never_collide",
+                                  "string_total", "string_to_total"),
+        partial="loads/stores of the real machine are observed by ASan/UBSan on every generated case, not proved; the decoders are modelled over lists (pattern "
+                "matching), so 'never reads outside the input' is carried by the correspondence run with exact-size heap inputs",
         rule="the C02 generators (arbitrary garbage in all four source encodings, every truncation point of well-formed text, null pointers with zero length), each "
              "input in an exact-size heap block under ASan+UBSan; observed: exception kind or (size(), units, NUL terminator); aborts/hangs attributed per case",
         exhaustive={"quick": False, "thorough": False},
@@ -83,12 +92,32 @@ PENDING = "not yet built in this round (machinery under construction; see DESIGN
 NOT_APPLICABLE = {("C%02d" % i): PENDING for i in range(1, 21)}
 
 MANIFEST_TEXT = {
-    "C01": dict(text="(under construction) correspondence + reference-transcoding check of every public conversion route on well-formed text",
-                design_ref="DESIGN.md section 3, C01", note="see evidence", technique="Lean 4 proof over a hand model + exhaustive per-scalar differential correspondence"),
-    "C02": dict(text="(under construction) correspondence + reference-transcoding check on malformed input, all modes and default-mode builds",
-                design_ref="DESIGN.md section 3, C02", note="see evidence", technique="Lean 4 proof over a hand model + differential correspondence"),
-    "C03": dict(text="(under construction) totality and memory safety of conversions on arbitrary input",
-                design_ref="DESIGN.md section 3, C03", note="see evidence", technique="Lean 4 proof over a hand model + differential correspondence under ASan/UBSan"),
+    "C01": dict(
+        text="Theorems (all scalar sequences by induction, all three modes): each of the six UTF-8/16/32 directions, ST::string construction from any encoding and "
+             "the to_* members map the standard encoding (Unicode Table 3-6 / D91 written with / and %) to the standard encoding, chains return the original units, "
+             "and Latin-1 bytes round-trip through every UTF form. They follow from one refinement theorem (model = reference transcoding). The model is tied to the "
+             "code by running every public route on all 1,112,064 scalars (digest blocks) and on boundary/neighbour/random sequences.",
+        design_ref="DESIGN.md section 3, C01",
+        note="Trusted: Lean kernel + 3 standard axioms, Spec/Unicode.lean as the meaning of 'standard encoding', the conv harness (ASan/UBSan) and its route table. "
+             "wchar_t routes are the UTF-32 routes on this platform; NUL-terminated routes see text up to the first zero unit (U+0000 goes through sized routes).",
+        technique="Lean 4 proof (refinement to a reference transcoder) + exhaustive per-scalar differential correspondence over every route"),
+    "C02": dict(
+        text="Theorems (arbitrary units of the right width, every mode): convert = reference transcoding defined from an independent left-to-right segmentation "
+             "(tolerated forms are sequences; stray continuation, short lead, F8-FF, unpaired surrogate, UTF-32 > 10FFFF are malformed units); check throws iff a unit is "
+             "malformed or a value does not fit the target; substitute never throws and yields the transcoding with U+FFFD/'?' per malformed unit; the repaired ST::string "
+             "re-validates and repair is idempotent; well-formed text is unchanged by all modes. Literal 're-validates' for UTF-16/32 targets is false by design: proved "
+             "negation witnesses are recorded findings, the partial theorem excludes them. Default-mode plumbing is checked over three ST_DEFAULT_VALIDATION builds.",
+        design_ref="DESIGN.md section 3, C02",
+        note="Trusted as C01. Reading chosen: assume_valid on malformed input is only required to be safe (C03), not to produce a particular text.",
+        technique="Lean 4 proof (refinement to a segmentation-based reference) + exhaustive short-string differential correspondence in three default-mode builds"),
+    "C03": dict(
+        text="Theorems (every input of fewer than 2^28 units in each source encoding, every mode): a conversion returns a buffer or throws unicode_error - never an "
+             "assertion, out-of-bounds store, unwritten tail or other exception; the fill pass stores exactly the measured number of units and never more on the throwing "
+             "path; null input gives an empty buffer; the result size equals the reference size. One genuine defect (utf8_to_utf16 assertion above U+10FFFF) was found by "
+             "this check and repaired. Machine-level reads/writes are observed under ASan with exact-size heap inputs, not proved.",
+        design_ref="DESIGN.md section 3, C03",
+        note="Trusted as C01; the decoders are modelled over lists, so an out-of-range *read* is expressible only in the harness (ASan), which is named as the unproved part.",
+        technique="Lean 4 proof of two-pass consistency and totality + differential correspondence under ASan/UBSan with abort/hang attribution"),
     "C14": dict(
         text="Theorems (Lean kernel, all byte arrays by induction): the model of hex_encode/base64_encode equals the RFC 4648 encoding written with / and %, "
              "lengths are 2n and 4*ceil(n/3), and both decoder forms (and upper-case hex) return the original bytes. The model is tied to the code by "
